@@ -4,6 +4,7 @@ CONSTANTS
   NWorkers = 1
   QCap = 2
   MaxWrites = 6
+  SendUnderLock = FALSE
 INVARIANT NoSelfDeadlock
 PROPERTY SealedEventuallyFlushed
 CHECK_DEADLOCK FALSE
